@@ -4,7 +4,7 @@ import ast
 from ..core.index import AnalysisError, walk_no_defs, calls_in, call_name, kwarg
 from ..core.cfg import node_calls
 from ..core import norm
-from .common import (WSP, get_analysis, is_self_attr, self_call, stmt_key, find_assign_nodes, is_test_module)
+from .common import (inline_private, WSP, get_analysis, is_self_attr, self_call, stmt_key, find_assign_nodes, is_test_module)
 
 META = {
     "explanation": "Guard-dominance rules: the receive-side limit comparison (strict, disabled at 0) sits in "
@@ -40,7 +40,8 @@ def rule_early_check(ctx):
             t = Tiny({plen: L, "self.maxMessagePayloadSize": M, "self.maxFramePayloadSize": F, "self.message_data_total_length": T0, "self.failedByMe": failed, "self": Sym("p"),
                       "self.state": state, "WebSocketProtocol.STATE_OPEN": S_OPEN_, "WebSocketProtocol.STATE_CLOSING": S_CLOSING_,
                       "WebSocketProtocol.STATE_CLOSED": ctx.program.class_const(wsp, "STATE_CLOSED")},
-                     default_call=lambda f_, a_, k_=None: fired.append((f_, list(a_))) or Sym(f"<{f_}>"))
+                     default_call=lambda f_, a_, k_=None: fired.append((f_, list(a_))) or Sym(f"<{f_}>"),
+                     inline_self=inline_private(ctx, wsp, exclude=("_max_message_size_exceeded", "_fail_connection", "_trigger")))
             t.run(body)
             total = t.env.get("self.message_data_total_length")
             want = (not failed) and ((M > 0 and T0 + L > M) or (F > 0 and L > F))
@@ -190,6 +191,68 @@ def rule_send_refusal(ctx):
         raise AnalysisError(f"[C16.3-send-refusal] sendMessage outside the modelled subset: {e}")
 
 
+def _accounting_cells(ctx, cls, f, name):
+    """The over-limit decision is about the MESSAGE, which arrives in pieces: cell-wise over (limit, octets inflated by earlier calls, what this
+    piece inflates to, already refused): the inflater is asked for (remaining allowance + 1) octets; the call raises PayloadExceededError
+    iff the running total exceeds the limit, and stays refused afterwards; otherwise it returns what was inflated and adds it to the total."""
+    from ..core.tiny import Tiny, Sym, Buf
+    import itertools
+    body = [x for x in f.node.body if not (isinstance(x, ast.Expr) and isinstance(x.value, ast.Constant))]
+    # the running counter / sticky flag of this class: attributes the method both reads and writes
+    written = {norm.text(t_) for st_ in walk_no_defs(f.node) if isinstance(st_, (ast.Assign, ast.AugAssign)) for t_ in (st_.targets if isinstance(st_, ast.Assign) else [st_.target])
+               if is_self_attr(t_)}
+    ints = sorted(w for w in written if any(isinstance(st_, ast.AugAssign) and norm.text(st_.target) == w for st_ in walk_no_defs(f.node)))
+    flags = sorted(written - set(ints))
+    if not ints and not flags:
+        return  # no per-message accounting in this method: the term rules below decide (and report) what it does with the bound
+    ctx.require(len(ints) == 1 and len(flags) <= 1, f"{name}: running total / refusal flag not identified (writes {sorted(written)})")
+    TOT = ints[0]
+    FLAG = flags[0] if flags else None
+    probs, cells = [], 0
+    try:
+        for N, D, avail, refused in itertools.product((None, 4), (0, 2, 4), (0, 1, 2, 3, 5, 9), (False, True)):
+            if N is None and (D or refused):
+                continue
+            if refused and FLAG is None:
+                continue
+            cells += 1
+            asked = []
+
+            def decompress(data, max_length=None):
+                asked.append(max_length)
+                n_ = avail if max_length is None else min(avail, max_length)
+                return Buf(0, n_)
+            env = {"self": Sym("pmce"), "self.max_message_size": N, TOT: (5 if refused else D), "self._decompressor": Sym("inflater", methods={"decompress": decompress}),
+                   f.params()[1]: Buf(100, 100 + 7)}
+            if FLAG:
+                env[FLAG] = refused
+            t = Tiny(env, default_call=lambda f_, a_, k_=None: Sym(f"<{f_}>"))
+            r = t.run(body)
+            cell = f"limit {N}, {D} octet(s) inflated before, this piece inflates to {avail}" + (", message already refused" if refused else "")
+            if N is None:
+                if not (r[0] == "return" and isinstance(r[1], Buf) and len(r[1]) == avail and asked == [None]):
+                    probs.append(f"{cell}: {r[0]} {r[1]} (inflater asked for {asked})")
+                continue
+            if refused:
+                if not (r[0] == "raise" and "PayloadExceededError" in str(r[1])) or asked:
+                    probs.append(f"{cell}: {r[0]} {str(r[1])[:40]}, inflater used {len(asked)} time(s); expected the refusal to stick")
+                continue
+            want_len = min(avail, N - D + 1)
+            over = D + want_len > N
+            if asked != [N - D + 1]:
+                probs.append(f"{cell}: inflater asked for {asked}, expected the remaining allowance + 1 = {N - D + 1}")
+            elif over and not (r[0] == "raise" and "PayloadExceededError" in str(r[1])):
+                probs.append(f"{cell}: running total {D + want_len} exceeds the limit but the piece is handed on ({r[0]} {r[1]})")
+            elif not over and not (r[0] == "return" and isinstance(r[1], Buf) and len(r[1]) == want_len and t.env.get(TOT) == D + want_len):
+                probs.append(f"{cell}: {r[0]} {str(r[1])[:40]}, total {t.env.get(TOT)}; expected {want_len} octets handed on and a total of {D + want_len}")
+            elif over and FLAG and t.env.get(FLAG) is not True:
+                probs.append(f"{cell}: refused, but the refusal is not remembered (later pieces of the message would be inflated again)")
+        ctx.ob(f"{name}: the limit applies to the running total of the message across calls; asks for allowance + 1, refuses iff exceeded, refusal sticks [{cells} cells]",
+               not probs, "; ".join(probs[:2]), f.loc())
+    except AnalysisError as e:
+        raise AnalysisError(f"[C16.4-bounded-decompress-pairing] {name} outside the modelled subset: {e}")
+
+
 def rule_bounded_decompress(ctx):
     """A size-bounded inflate must never hand out a silently truncated message: either the unread input is inspected
     (unconsumed_tail / eof idiom) or one octet more than the allowance is requested and an excess raises before the data
@@ -244,6 +307,8 @@ def rule_bounded_decompress(ctx):
                         ctx.ob(f"{name}: the inflater is asked for one octet more than the message may still grow", plus_one,
                                f"bound is {show(bound)}: with a bound equal to the allowance, an over-limit message is cut at the limit and cannot be told from one that fits",
                                f.loc(o.node))
+                if not tail_idiom and f.name == "decompress_message_data":
+                    _accounting_cells(ctx, c, f, name)
                 if not tail_idiom:
                     exc = [o for o in raises if limit_cmps(o.conds)]
                     ctx.ob(f"{name}: exceeding the limit raises instead of returning data", bool(exc) and all("PayloadExceededError" in show(o.term) for o in exc),
